@@ -590,7 +590,7 @@ theorem modeOk_inTable : ModeOk .inTable := by
 theorem Core.setPtt {s : State} {r : Id} {up : List Id} {ph : Phase} (hc : Core s r up ph)
     {l : List (SplitStatus × Str)} (hl : ∀ p ∈ l, p.2 ≠ []) : Core { s with pendingTableText := l } r up ph :=
   ⟨hc.late.setPtt hl, hc.stack, hc.rdoc, hc.nodup, hc.tg, hc.afn, hc.tc, hc.tmm, hc.form, hc.rtu, hc.rnd, hc.kids,
-    hc.elems, hc.bh, hc.afx⟩
+    hc.elems, hc.bh, hc.afx, hc.adj⟩
 
 theorem Big.setPtt {m : Mode} {r : Id} {ph : Phase} {s : State} (h : Big m r ph s)
     {l : List (SplitStatus × Str)} (hl : ∀ p ∈ l, p.2 ≠ []) : Big m r ph { s with pendingTableText := l } := by
